@@ -24,7 +24,7 @@ HOST_WORDS = ['constructor', 'toString', 'valueOf', 'hasOwnProperty', 'isPrototy
               '__lookupGetter__', 'prototype', 'length', 'size', 'get', 'set', 'has', 'keys', 'null', 'undefined', 'NaN', 'None', 'True', 'false', '__class__', '__dict__',
               '__init__', '__len__', 'self', 'this', 'pattern', 'text', 'like', 'LIKE', 'cache', 'match', 'test', 'exec', 'source', 'flags', 'lastIndex', 'then', 'toJSON']
 # patterns written as string literals in the query text: characters that mean something to a replacement routine, a literal lexer or the query parser
-LITERAL_PATTERNS = ['$$', '%$$', 'a$$b', 'a$&b', 'a$`b', "$'", "a$'", '$1', '$0', '${x}', '$<n>', '\\$', '$', '%$', "it's", 'say "hi"', 'back\\slash', '\\%', '\\_', '\\\\', 'tab\there',
+LITERAL_PATTERNS = ['foo\tb_r%', '\t', 'a\t%\tb', '_\t_', '%\t', 'x \t y', '$$', '%$$', 'a$$b', 'a$&b', 'a$`b', "$'", "a$'", '$1', '$0', '${x}', '$<n>', '\\$', '$', '%$', "it's", 'say "hi"', 'back\\slash', '\\%', '\\_', '\\\\', 'tab\there',
                     'select %', '% from %', 'a as b', '# not comment', '-- x', 'x; y', 'a == b', 'like(a1, a2)', '%,%', '(%)', '[%]', '{_}', '___RBQL_STRING_LITERAL0___', '%s', '{}', '{0}', '%(x)s', ' ', '']
 EXTRA_META = [')', ']', '{', '}', '-', '#', ' ', '&', '~', '/', "'", '"']
 
@@ -301,6 +301,12 @@ def run_shard(spec, res):
         for i, p in enumerate(pats):
             texts = derived_texts(p)[:10] + [p, p.replace('$$', '$'), p + 'x', '']
             quote = '"' if i % 2 else "'"
+            if '\t' in p:
+                # the tab written as the character itself inside the literal (it stands for itself, like any other character): texts with the tab and with a blank in its place
+                texts += [x.replace('\t', ' ') for x in texts if '\t' in x] + [x.replace('%', 'q').replace('_', 'z') for x in (p, p.replace('\t', ' '))]
+                cases.append({'query': 'select like(a1, %s)' % (quote + ''.join('\\' + c if c in (quote, '\\') else c for c in p) + quote), 'texts': texts, 'pattern': p})
+                res.count('literal_patterns_with_raw_tab')
+                continue
             cases.append({'query': 'select like(a1, %s)' % qast.lit(p, quote), 'texts': texts, 'pattern': p})
         for c in cases:
             out = []
@@ -416,7 +422,7 @@ def summarize(tier, seed, m):
             PAT_LEN[tier], TXT_LEN[tier], ''.join(ALPHABET), JS_PAT_LEN[tier], JS_TXT_LEN[tier], RANDOM_PAIRS[tier],
             '; every length-5 pattern containing a wildcard (and 1/7 of the others) against texts derived from it (wildcard instantiations and their single-symbol edits)' if tier == 'thorough' else ''),
         'exhaustive': True,
-        'required': ['py_exhaustive_pairs', 'long_pattern_pairs_over_16_tokens', 'js_long_pattern_pairs', 'py_random_pairs', 'py_newline_pairs', 'py_quantifier_pairs', 'py_word_pairs', 'py_literal_pattern_queries'],
+        'required': ['py_exhaustive_pairs', 'literal_patterns_with_raw_tab', 'long_pattern_pairs_over_16_tokens', 'js_long_pattern_pairs', 'py_random_pairs', 'py_newline_pairs', 'py_quantifier_pairs', 'py_word_pairs', 'py_literal_pattern_queries'],
         'assumptions': ['rv.model.refcsv.like is SQL LIKE', 'single-line texts only (no LF, CR, NEL, LS, PS), as quantified'],
     }
 
